@@ -49,7 +49,7 @@ register("xss_fuzz", src="xss_mon.cpp", flavors=("fuzz",), defs="-DVERIF_FUZZ")
 register("mp_mon", flavors=("asan",))
 register("mp_fuzz", src="mp_mon.cpp", flavors=("fuzz",), defs="-DVERIF_FUZZ")
 register("cache_mon", flavors=("asan",))
-register("cache_conc", flavors=("tsan", "asan"))
+register("cache_conc", flavors=("tsan", "asan", "plain"))
 register("netcache_mon", flavors=("asan", "tsan"))
 register("sess_mon", flavors=("asan", "plain"))
 register("sess_hist", flavors=("asan",))
